@@ -85,8 +85,12 @@ def _mk_track_distances(na, nb):
         idb, b = _track_n(P, vm, 'trk', pb == 0, nb)
         ca, cb = Cell(a, 'a'), Cell(b, 'b')
         r = vm.exec_fn(fn, [Ref(ca), Ref(cb), usize(0)], STORE_ENV)
-        e = vm.notes['env']
-        comp = e.outcomes[digest('compatible', deep(vm, Ref(Cell(Opaque('TA', 'cand')))), deep(vm, Ref(Cell(Opaque('TA', 'trk')))))] == 0
+        e = vm.notes.get('env') or Env(vm)
+        ckey = digest('compatible', deep(vm, Ref(Cell(Opaque('TA', 'cand')))), deep(vm, Ref(Cell(Opaque('TA', 'trk')))))
+        vm.check(BOOL(ckey in e.outcomes), "compatibility is decided first: an incompatible pair is reported as incompatible, never as a missing class or a result")
+        if ckey not in e.outcomes:
+            return
+        comp = e.outcomes[ckey] == 0
         if not comp:
             vm.check(BOOL(r.variant == 1 and is_variant(P, r.fields[0].fields[0], 'Errors', 'IncompatibleAttributes')),
                      "incompatible attributes -> Err(IncompatibleAttributes)")
